@@ -203,9 +203,24 @@ example : Life.C04.ok 1 [.supIs (some 0), .exit .handle (.err 3), .emit 0 (.fail
 example : Life.C04.ok 1 [.supIs (some 0), .exit .handle (.err 3), .emit 0 (.failed 1 true 3)] = false := by decide
 example : Life.C04.ok 1 [.supIs (some 0), .exit .handle (.err 3), .emit 2 (.failed 1 false 3)] = false := by decide
 example : Life.C04.ok 1 [.supIs (some 0), .exit .preStart (.err 3), .emit 0 (.failed 1 false 3)] = false := by decide
-example : Life.C04.ok 1 [.supIs (some 0), .drainRet true, .exit .postStop .ok,
+example : Life.C04.ok 1 [.supIs (some 0), .drainRet true, .enter .postStop .none, .exit .postStop .ok,
     .emit 0 (.terminated 1 true .drained), .join .ok] = true := by decide
-example : Life.C04.ok 1 [.supIs (some 0), .drainRet true, .exit .postStop .ok, .join .ok] = false := by decide
+example : Life.C04.ok 1 [.supIs (some 0), .drainRet true, .enter .postStop .none, .exit .postStop .ok, .join .ok] = false := by decide
+-- round 4: `ActorStarted` is due right after `post_start` returned ok (positive form)
+example : Life.C04.ok 1 [.supIs (some 0), .exit .postStart .ok, .enter .handle (.msg 1)] = false := by decide
+example : Life.C04.ok 1 [.supIs (some 0), .exit .postStart .ok, .killRet false true,
+    .emit 0 (.terminated 1 false .killed)] = false := by decide
+example : Life.C04.ok 1 [.exit .postStart .ok, .enter .handle (.msg 1)] = true := by decide   -- unsupervised
+-- round 4: the reason is the one of the request the loop took: a stop accepted before `post_stop` was
+-- entered wins over the drain marker, a stop accepted afterwards does not change the reason
+example : Life.C04.ok 1 [.supIs (some 0), .drainRet true, .stopRet false (.text "r") true, .enter .postStop .none,
+    .exit .postStop .ok, .emit 0 (.terminated 1 true .drained)] = false := by decide
+example : Life.C04.ok 1 [.supIs (some 0), .drainRet true, .stopRet false (.text "r") true, .enter .postStop .none,
+    .exit .postStop .ok, .emit 0 (.terminated 1 true (.text "r"))] = true := by decide
+example : Life.C04.ok 1 [.supIs (some 0), .drainRet true, .enter .postStop .none, .stopRet false (.text "r") true,
+    .exit .postStop .ok, .emit 0 (.terminated 1 true (.text "r"))] = false := by decide
+example : Life.C04.ok 1 [.supIs (some 0), .drainRet true, .enter .postStop .none, .stopRet false (.text "r") true,
+    .exit .postStop .ok, .emit 0 (.terminated 1 true .drained)] = true := by decide
 
 end C04
 
